@@ -36,6 +36,7 @@ class Result(object):
         self.nontrivial = False
         self.digest = ""
         self.steps = 0
+        self.rec = None  # optional Recorder of the main run (distinct-state measure on sampled runs)
 
     def add(self, clause, key, msg, step=None):
         for v in self.violations:
@@ -75,7 +76,8 @@ def _work(args):
     try:
         mod = prop_module(pid)
         agg = {"n": 0, "stats": {}, "nt": set(), "viol": [], "samples": [], "steps": 0, "digests": [],
-               "first": start, "last": start - 1}
+               "first": start, "last": start - 1, "states": set(), "state_runs": 0}
+        sample = 1 if tier == "quick" else 64
         for i in range(start, stop):
             if deadline and time.time() > deadline:
                 break
@@ -84,6 +86,10 @@ def _work(args):
             agg["n"] += 1
             agg["last"] = i
             agg["steps"] += res.steps
+            if res.rec is not None and i % sample == 0:
+                from .props.common import state_digests
+                agg["states"] |= state_digests(res.rec)
+                agg["state_runs"] += 1
             for k, v in res.stats.items():
                 agg["stats"][k] = agg["stats"].get(k, 0) + v
             if res.nontrivial:
@@ -126,8 +132,10 @@ def run_campaign(pid, tier="quick", base_seed=0, workers=None, n=None, wall_cap=
         with cf.ProcessPoolExecutor(max_workers=workers, mp_context=ctx) as ex:
             for a in ex.map(_work, jobs):
                 aggs.append(a)
-    total = {"n": 0, "stats": {}, "nt": set(), "viol": [], "samples": [], "steps": 0, "digests": []}
+    total = {"n": 0, "stats": {}, "nt": set(), "viol": [], "samples": [], "steps": 0, "digests": [], "states": set(), "state_runs": 0}
     for a in aggs:
+        total["states"] |= a["states"]
+        total["state_runs"] += a["state_runs"]
         total["n"] += a["n"]
         total["steps"] += a["steps"]
         for k, v in a["stats"].items():
@@ -200,6 +208,10 @@ def evidence(pid, mod, tier, base_seed, total, n_viol, extra=None):
         "seeds": {"VERIF_SEED": base_seed, "derivation": "sha256(VERIF_SEED/%s/i)[:16]" % pid,
                   "index_range": [0, total["n"]]},
         "counters": dict(sorted(total["stats"].items())),
+        "distinct_states": {"count": len(total["states"]), "measured_on_runs": total["state_runs"],
+                            "measure": "distinct crc32 digests of the complete live state (tasks, components, workers, facilities, "
+                                       "workplaces) at the 'recorded' instant of a step; every run in quick, every 64th run in thorough"},
+        "simulated_time_steps": total["steps"],
         "components": COMPONENTS,
         "workers": total["workers"],
         "exhaustive": False,
